@@ -25,6 +25,7 @@ def decreasing(a, n):
 
 
 class Val2Idx(Contract):
+    parallel_paths = False
     prop = 'C16'
     target = TARGET
     max_paths = 300
@@ -32,6 +33,8 @@ class Val2Idx(Contract):
     def __init__(self, method, direction, bnds, bounds='warn'):
         self.method, self.direction, self.bnds, self.bounds = method, direction, bnds, bounds
         self.name = 'val2idx[%s,%s,bounds-var=%s,bounds=%s]' % (method, direction, bnds, bounds)
+        self.prefer_solver = 'z3-4.8.12' if (method == 'bounds' and bnds is None) else None
+        self.parallel_paths = (method == 'bounds' and bnds is None)
 
     def inputs(self, ctx, I):
         n, m = ctx.fresh('n'), ctx.fresh('m')
